@@ -180,6 +180,9 @@ def c06(tier):
     run.submit(p3_stream_job, "trend-big", "C06", big)
     run.submit(p3_stream_job, "trend-sweep", "C06", window_sweep(rnd, kinds, lo=-30, hi=30, ns=[n for n in SWEEP_NS if n <= 66]))
     f32_job(run, "C06", cfgs(kinds, [3, 4]), [-2, 0, 1, 3], 6)
+    # over what an inner view delivers (a withheld first value, held values)
+    run.submit(p1_job, "trend-chain", "MC_Def", {"prop": "C06", "cfgs": [dict(c, c=[i]) for c in cfgs(kinds, [3]) for i in (sma(2), {"k": "Roc", "n": 1}, {"k": "Max", "n": 2})],
+                                        "alphabet": [-2, 0, 1, 3], "unit": 1, "maxlen": 6})
     release_job(run, "C06", cfgs(kinds, [3, 4]), [-2, 0, 1, 3], 6)
     for k_ in (-70, 60):
         run.submit(p1_job, "trend-units-p%d" % k_, "MC_Def", {"prop": "C06", "cfgs": cfgs(kinds, [3, 4]), "alphabet": [-2, 0, 1, 3], "unit": 1, "maxlen": 6, "pow2": k_})
@@ -282,6 +285,8 @@ def c11(tier):
             run.submit(p1_job, "units-lin-n%d-p%d" % (n, k), "MC_Def", {"prop": "C11", "cfgs": lin, "alphabet": [0, 1, 3], "unit": 1, "maxlen": L, "pow2": k, "outpow2": -k})
     f32_job(run, "C11", [v for n_ in (2, 3) for v in views(n_) if v["k"] in ("SuperSmoother", "RoofingFilter", "CyberCycle")] + lag[:3], [0, 1, 3], 7)
     release_job(run, "C11", views(3) + lag[:2], [0, 1, 3], 7)
+    chv = [with_leaf(v, i) for v in views(3) + lag[:2] for i in (sma(2), {"k": "Roc", "n": 1})]
+    run.submit(p1_job, "ehlers-chain", "MC_Def", {"prop": "C11", "cfgs": chv, "alphabet": [1, 2, 4], "unit": 1, "maxlen": 7})
     run.submit(p1_job, "laguerre", "MC_Def", {"prop": "C11", "cfgs": lag, "alphabet": [-2, 0, 1, 3], "unit": 1, "maxlen": 6 if tier == "quick" else 8})
     return run.finish(RULE_DEF)
 
@@ -577,6 +582,9 @@ def c07(tier):
         pos = [{"k": "Drawdown"}, {"k": "CenterOfGravity", "n": n}, {"k": "Min", "n": n}, {"k": "Max", "n": n}, sma(n), {"k": "Alma", "n": n}, E]
         run.submit(p1_job, "rng-pos-n%d" % n, "MC_Obs", {"prop": "C07", "cfgs": pos, "alphabet": [1, 3, 10, 11][:len(A)], "unit": 10, "maxlen": L},
                nontrivial_keys=None, view_label=label)
+    run.submit(p1_job, "rng-f32", "MC_Obs", {"prop": "C07", "cfgs": [c for c in bounded(3) if c["k"] != "PolarizedFractalEfficiency"],      # (KF1 is attributed by comparing with the f64 formula value)
+                                          "alphabet": [-2, 0, 1, 3], "unit": 1, "maxlen": 6, "float": "f32"}, nontrivial_keys=None, view_label=label)
+    run.submit(p1_job, "rng-release", "MC_Obs", {"prop": "C07", "cfgs": bounded(3), "alphabet": [-2, 0, 1, 3], "unit": 1, "maxlen": 6}, profile="release", nontrivial_keys=None, view_label=label)
     rnd = random.Random(707 + run.seed)
     adv = []
     for n in ((2, 5, 16) if tier == "quick" else (2, 3, 5, 8, 16, 33, 64)):
@@ -665,6 +673,10 @@ def c15(tier):
                    profile=prof, nontrivial_keys=nk, view_label=label)
             run.submit(p1_job, "np-pos-n%d-%s" % (n, prof), "MC_Obs", {"prop": "C15", "cfgs": catalogue(n, positive=True), "alphabet": [1, 2, 4], "unit": 2, "maxlen": L},
                    profile=prof, nontrivial_keys=nk, view_label=label)
+        if prof == "dev":
+            for n in (1, 2, 3):
+                run.submit(p1_job, "np-f32-n%d" % n, "MC_Obs", {"prop": "C15", "cfgs": catalogue(n), "alphabet": [-1, 0, 1], "unit": 1, "maxlen": 5, "float": "f32"},
+                           profile=prof, nontrivial_keys=nk, view_label=label)
         # windows longer than the stream / long windows: constant and two-symbol streams (index arithmetic does not depend on data)
         big = list(range(5, 65)) if tier != "quick" else [5, 6, 7, 8, 10, 12, 16, 20, 24, 31, 32, 33, 40, 41, 48, 63, 64]
         allbig = [c for n in big for c in catalogue(n, m=(n % 3) + 1) if "n" in c or c["k"] in ("Add", "Subtract", "Multiply")]
@@ -766,6 +778,14 @@ def c01(tier):
             run.submit(p1_job, "chain-%d-%d-%d" % (nb, na, i // 4), "MC_C01",
                        {"cfgs": c01_pairs(grp, inners(na)), "alphabet": [1, 2, 4], "unit": 1, "maxlen": L, "taps": True},
                        cfgfile="MC_C01.cfg", cfg_fraction=2, nontrivial_keys=("same-answer",), view_label=c01_label)
+        if (nb, na) == combos[0]:
+            # the same composition law on the optimised build and in f32 (a sample of outer views over every inner view)
+            smp = [o for o in outs if o["k"] in ("Sma", "HLNormalizer", "Rsi", "Ema", "LnReturn", "Tanh", "WelfordOnline", "EhlersFisherTransform")]
+            for tag, kw, sx in (("release", {"profile": "release"}, {}), ("f32", {}, {"float": "f32"})):
+                for i in range(0, len(smp), 4):
+                    run.submit(p1_job, "chain-%s-%d" % (tag, i // 4), "MC_C01",
+                               dict({"cfgs": c01_pairs(smp[i:i + 4], inners(na)), "alphabet": [1, 2, 4], "unit": 1, "maxlen": L, "taps": True}, **sx),
+                               cfgfile="MC_C01.cfg", cfg_fraction=2, nontrivial_keys=("same-answer",), view_label=c01_label, **kw)
         # a second alphabet with zero and negatives for the views whose domain admits it
         nopos = [o for o in unary(nb) if o["k"] not in ("LnReturn", "Drawdown")]
         inn = [c for c in inners(na) if c["k"] not in ("LnReturn", "Drawdown", "Divide")][:12 if tier == "quick" else 99]
@@ -838,6 +858,7 @@ def c17(tier):
     par += [{"k": "LaguerreFilter", "g": g} for g in ([1, 2], [3, 4])] + [{"k": "GTE", "v": v} for v in ([1, 2], [5, 2])] + \
            [{"k": "LTE", "v": v} for v in ([1, 2], [5, 2])] + [{"k": "Constant", "v": v} for v in ([3, 2], [-1, 4])]
     run.submit(p2_job, "sf-params", {"cfgs": par, "inputs": [1, 2, 4], "unit": 1, "slots": 3, "depth": depth}, "C17", num=2 * num, twice=True)
+    run.submit(p2_job, "sf-f32", {"cfgs": catalogue(2, positive=True), "inputs": [1, 2, 3], "unit": 1, "slots": 3, "depth": depth, "float": "f32"}, "C17", num=num, twice=True)
     ch = chains2(catalogue(2, positive=True), sma(2)) + chains2(catalogue(3, positive=True), {"k": "Roc", "n": 1}) + chains2(catalogue(2, positive=True), {"k": "LaguerreRSI", "n": 2})
     run.submit(p2_job, "sf-chains", {"cfgs": ch, "inputs": [1, 2, 4], "unit": 1, "slots": 3, "depth": depth}, "C17", num=2 * num)
     # twins and clones of one configuration, every polling pattern and clone position (SFTwin.tla), all views
